@@ -133,6 +133,51 @@ func (v variant) apply(l Local, s Sess, x Attr) Attr {
 // orders are admitted when they differ. No candidates = not advertised (why says which rule or the policy).
 // mask = fields to compare.
 func Candidates(l Local, s Sess, pol Policy, pfx gen.P, a Attr) (cands []Attr, mask []string, why string) {
+	return candidates(l, s, pol, pfx, a, true)
+}
+
+// CandidatesPolicyLast is Candidates with the order fixed the way the export view is defined (DESIGN section 4, C08:
+// the export function, then the policy interpreter; exportPath's own contract; the policy documentation: next_hop
+// is the "IP address to be used as a next-hop for the route"): the export policy runs on the path as the session
+// rewrote it and has the last word. A next hop it sets is the advertised next hop, the ASNs it prepends stand in
+// front of the local ASN. The session's rewrites are never applied on top of the policy's output.
+func CandidatesPolicyLast(l Local, s Sess, pol Policy, pfx gen.P, a Attr) (cands []Attr, mask []string, why string) {
+	return candidates(l, s, pol, pfx, a, false)
+}
+
+// OrderMatters reports whether, for this admitted path on this session, "session rewrites, then policy" and "policy,
+// then session rewrites" give different projections under every admissible variant of the rewrites (the policy sets
+// the next hop or prepends to the AS_PATH on a session that rewrites them too).
+func OrderMatters(l Local, s Sess, pol Policy, pfx gen.P, a Attr) bool {
+	if Excluded(l, s, a) != "" || !pol.Modifies() {
+		return false
+	}
+	w := Rewrite(l, s, a)
+	pre := a.Clone()
+	if a.Static {
+		pre = Attr{ID: a.ID, Static: true, NextHop: StaticNHBase + a.ID}
+	}
+	polOut, rej, touched := pol.Eval(pfx, pre, route.BGPPathType, true)
+	if rej || !(touched[FNextHop] || touched[FASPath]) {
+		return false
+	}
+	var first, last []Attr
+	for _, v := range variants(s, w) {
+		o1, _, _ := pol.Eval(pfx, v.apply(l, s, pre), route.BGPPathType, true)
+		last = append(last, o1)
+		first = append(first, v.apply(l, s, polOut))
+	}
+	for _, x := range first {
+		for _, y := range last {
+			if len(x.DiffFields(y, []string{FNextHop, FASPath})) == 0 {
+				return false
+			}
+		}
+	}
+	return true
+}
+
+func candidates(l Local, s Sess, pol Policy, pfx gen.P, a Attr, bothOrders bool) (cands []Attr, mask []string, why string) {
 	if r := Excluded(l, s, a); r != "" {
 		return nil, nil, r
 	}
@@ -148,7 +193,7 @@ func Candidates(l Local, s Sess, pol Policy, pfx gen.P, a Attr) (cands []Attr, m
 	for _, v := range variants(s, w) {
 		o1, _, _ := pol.Eval(pfx, v.apply(l, s, pre), route.BGPPathType, true) // rewrites, then policy
 		cands = append(cands, o1)
-		if touched[FNextHop] || touched[FASPath] {
+		if bothOrders && (touched[FNextHop] || touched[FASPath]) {
 			cands = append(cands, v.apply(l, s, polOut)) // policy, then rewrites
 		}
 	}
